@@ -1,11 +1,11 @@
 import SqlProofs.Bookkeeping
+import SqlProofs.PureScript
 /-!
 # SqlProofs.BookkeepingAbs — the pure tree a heap object stands for
 
-`absF tt h fuel i` is the pure `Node` of object `i` of the heap `h`: a leaf carries its token type (`tt i` — the heap of
-`SqlModel/Bookkeeping.lean` does not store token types, `group_tokens` never reads or writes them, so they are a parameter) and its value,
-a group its class and the abstraction of its children.  `IsAbs tt h A` says that `A : Nat → Node` solves these equations; in a heap
-satisfying `Inv` the solution exists, is unique, and is computed by `absF` with any recursion budget above the rank
+`absF h fuel i` is the pure `Node` of object `i` of the heap `h`: a leaf carries its token type and its value,
+a group its class and the abstraction of its children.  `IsAbs h A` says that `A : Nat → Node` solves these equations; in a heap
+satisfying `Inv0` (`Inv` without "groups are non-empty") the solution exists, is unique, and is computed by `absF` with any recursion budget above the rank
 (`isAbs_absF`, `IsAbs.unique`, `absF_eq_of`).
 
 `IsPath h r p x`: following the child indexes `p` from object `r` leads to object `x`.  In a heap satisfying `Inv` paths are unique
@@ -14,20 +14,20 @@ satisfying `Inv` the solution exists, is unique, and is computed by `absF` with 
 namespace Sql.BK
 
 /-- the pure tree of object `i` (recursion budget like `strF`; a budget above the rank of `i` is enough) -/
-def absF (tt : Nat → TType) (h : Heap) : Nat → Nat → Node
-  | 0, i => .tok (tt i) (h.obj i).value
+def absF (h : Heap) : Nat → Nat → Node
+  | 0, i => .tok (h.obj i).ttype (h.obj i).value
   | f+1, i =>
     match (h.obj i).kids with
-    | none => .tok (tt i) (h.obj i).value
-    | some ks => .grp (h.obj i).cls (ks.map (absF tt h f))
+    | none => .tok (h.obj i).ttype (h.obj i).value
+    | some ks => .grp (h.obj i).cls (ks.map (absF h f))
 
 /-- `A` assigns to every object its pure tree -/
-structure IsAbs (tt : Nat → TType) (h : Heap) (A : Nat → Node) : Prop where
-  leaf : ∀ i, (h.obj i).kids = none → A i = .tok (tt i) (h.obj i).value
+structure IsAbs (h : Heap) (A : Nat → Node) : Prop where
+  leaf : ∀ i, (h.obj i).kids = none → A i = .tok (h.obj i).ttype (h.obj i).value
   grp : ∀ i ks, (h.obj i).kids = some ks → A i = .grp (h.obj i).cls (ks.map A)
 
-theorem absF_fuel {tt : Nat → TType} {h : Heap} {rank : Nat → Nat} {T : Nat → Text} (hinv : Inv h rank T) :
-    ∀ (f f' i : Nat), rank i < f → rank i < f' → absF tt h f i = absF tt h f' i := by
+theorem absF_fuel {h : Heap} {rank : Nat → Nat} {T : Nat → Text} (hinv : Inv0 h rank T) :
+    ∀ (f f' i : Nat), rank i < f → rank i < f' → absF h f i = absF h f' i := by
   intro f
   induction f with
   | zero => intro f' i hi; omega
@@ -45,22 +45,22 @@ theorem absF_fuel {tt : Nat → TType} {h : Heap} {rank : Nat → Nat} {T : Nat 
       have := hinv.rk i ks hk k hkm
       exact ih g k (by omega) (by omega)
 
-theorem absF_grp {tt : Nat → TType} {h : Heap} {i : Nat} {ks : List Nat} (hk : (h.obj i).kids = some ks) (f : Nat) :
-    absF tt h (f + 1) i = .grp (h.obj i).cls (ks.map (absF tt h f)) := by
+theorem absF_grp {h : Heap} {i : Nat} {ks : List Nat} (hk : (h.obj i).kids = some ks) (f : Nat) :
+    absF h (f + 1) i = .grp (h.obj i).cls (ks.map (absF h f)) := by
   simp only [absF, hk]
 
-theorem absF_leaf {tt : Nat → TType} {h : Heap} {i : Nat} (hk : (h.obj i).kids = none) (f : Nat) :
-    absF tt h f i = .tok (tt i) (h.obj i).value := by
+theorem absF_leaf {h : Heap} {i : Nat} (hk : (h.obj i).kids = none) (f : Nat) :
+    absF h f i = .tok (h.obj i).ttype (h.obj i).value := by
   cases f <;> simp only [absF, hk]
 
 /-- the solution exists -/
-theorem isAbs_absF {tt : Nat → TType} {h : Heap} {rank : Nat → Nat} {T : Nat → Text} (hinv : Inv h rank T) :
-    IsAbs tt h (fun i => absF tt h (rank i + 1) i) := by
+theorem isAbs_absF {h : Heap} {rank : Nat → Nat} {T : Nat → Text} (hinv : Inv0 h rank T) :
+    IsAbs h (fun i => absF h (rank i + 1) i) := by
   refine ⟨?_, ?_⟩
   · intro i hk
     exact absF_leaf hk _
   · intro i ks hk
-    show absF tt h (rank i + 1) i = _
+    show absF h (rank i + 1) i = _
     rw [absF_grp hk]
     congr 1
     apply List.map_congr_left
@@ -69,8 +69,8 @@ theorem isAbs_absF {tt : Nat → TType} {h : Heap} {rank : Nat → Nat} {T : Nat
     exact absF_fuel hinv _ _ k (by omega) (by omega)
 
 /-- every solution is computed by `absF` -/
-theorem absF_eq_of {tt : Nat → TType} {h : Heap} {rank : Nat → Nat} {T : Nat → Text} {A : Nat → Node} (hinv : Inv h rank T)
-    (hA : IsAbs tt h A) : ∀ (f i : Nat), rank i < f → absF tt h f i = A i := by
+theorem absF_eq_of {h : Heap} {rank : Nat → Nat} {T : Nat → Text} {A : Nat → Node} (hinv : Inv0 h rank T)
+    (hA : IsAbs h A) : ∀ (f i : Nat), rank i < f → absF h f i = A i := by
   intro f
   induction f with
   | zero => intro i hi; omega
@@ -89,14 +89,14 @@ theorem absF_eq_of {tt : Nat → TType} {h : Heap} {rank : Nat → Nat} {T : Nat
       exact ih k (by omega)
 
 /-- the solution is unique -/
-theorem IsAbs.unique {tt : Nat → TType} {h : Heap} {rank : Nat → Nat} {T : Nat → Text} {A B : Nat → Node} (hinv : Inv h rank T)
-    (hA : IsAbs tt h A) (hB : IsAbs tt h B) : A = B := by
+theorem IsAbs.unique {h : Heap} {rank : Nat → Nat} {T : Nat → Text} {A B : Nat → Node} (hinv : Inv0 h rank T)
+    (hA : IsAbs h A) (hB : IsAbs h B) : A = B := by
   funext i
   rw [← absF_eq_of hinv hA (rank i + 1) i (by omega), ← absF_eq_of hinv hB (rank i + 1) i (by omega)]
 
 /-- the ghosts hidden: in a well-formed heap there is exactly one abstraction, and `absF` computes it for every large enough budget -/
-theorem WF.abs_unique {h : Heap} (hw : WF h) (tt : Nat → TType) :
-    ∃ A, IsAbs tt h A ∧ (∀ B, IsAbs tt h B → B = A) ∧ ∃ F, ∀ fuel, F ≤ fuel → ∀ i, i < h.size → absF tt h fuel i = A i := by
+theorem WF0.abs_unique {h : Heap} (hw : WF0 h) :
+    ∃ A, IsAbs h A ∧ (∀ B, IsAbs h B → B = A) ∧ ∃ F, ∀ fuel, F ≤ fuel → ∀ i, i < h.size → absF h fuel i = A i := by
   obtain ⟨rank, T, hinv⟩ := hw
   refine ⟨_, isAbs_absF hinv, fun B hB => IsAbs.unique hinv hB (isAbs_absF hinv), ((List.range h.size).map rank).foldl max 0 + 1, ?_⟩
   intro fuel hF i hi
@@ -118,6 +118,10 @@ theorem WF.abs_unique {h : Heap} (hw : WF h) (tt : Nat → TType) :
       · exact ih _ x hx
   have := hmx ((List.range h.size).map rank) 0 (rank i) (List.mem_map.mpr ⟨i, List.mem_range.mpr hi, rfl⟩)
   omega
+
+theorem WF.abs_unique {h : Heap} (hw : WF h) :
+    ∃ A, IsAbs h A ∧ (∀ B, IsAbs h B → B = A) ∧ ∃ F, ∀ fuel, F ≤ fuel → ∀ i, i < h.size → absF h fuel i = A i :=
+  hw.toWF0.abs_unique
 
 /-! ## paths -/
 
@@ -170,7 +174,7 @@ theorem IsPath.snoc_inv {h : Heap} {r x : Nat} {p : List Nat} (h1 : IsPath h r p
       exact ⟨i :: q, i', par, ks', by rw [he]; rfl, .cons hk hi hq, hk', hi'⟩
 
 /-- ranks decrease along a path by at least its length -/
-theorem IsPath.rank_le {h : Heap} {rank : Nat → Nat} {T : Nat → Text} (hinv : Inv h rank T) {r x : Nat} {p : List Nat}
+theorem IsPath.rank_le {h : Heap} {rank : Nat → Nat} {T : Nat → Text} (hinv : Inv0 h rank T) {r x : Nat} {p : List Nat}
     (h1 : IsPath h r p x) : rank x + p.length ≤ rank r := by
   induction h1 with
   | nil r => simp
@@ -179,7 +183,7 @@ theorem IsPath.rank_le {h : Heap} {rank : Nat → Nat} {T : Nat → Text} (hinv 
     simp only [List.length_cons]
     omega
 
-theorem Reach.rank_le {h : Heap} {rank : Nat → Nat} {T : Nat → Text} (hinv : Inv h rank T) {r x : Nat} (h1 : Reach h r x) :
+theorem Reach.rank_le {h : Heap} {rank : Nat → Nat} {T : Nat → Text} (hinv : Inv0 h rank T) {r x : Nat} (h1 : Reach h r x) :
     rank x ≤ rank r := by
   obtain ⟨p, hp⟩ := h1
   have := hp.rank_le hinv
@@ -191,7 +195,7 @@ theorem getElem?_inj_of_nodup {l : List Nat} (hnd : l.Nodup) {i j x : Nat} (hi :
   exact (List.getElem_inj (h₀ := hil) (h₁ := hjl) hnd).mp (hie.trans hje.symm)
 
 /-- **paths are unique** (every object has one container, occurs once in it, and the graph is acyclic) -/
-theorem IsPath.unique {h : Heap} {rank : Nat → Nat} {T : Nat → Text} (hinv : Inv h rank T) {r : Nat} :
+theorem IsPath.unique {h : Heap} {rank : Nat → Nat} {T : Nat → Text} (hinv : Inv0 h rank T) {r : Nat} :
     ∀ (n : Nat) (p q : List Nat) (x : Nat), p.length = n → IsPath h r p x → IsPath h r q x → p = q := by
   intro n
   induction n with
@@ -233,12 +237,12 @@ theorem IsPath.unique {h : Heap} {rank : Nat → Nat} {T : Nat → Text} (hinv :
       have := ih p0 q0 par hlen hp0 hq0
       rw [he, he', this]
 
-theorem IsPath.unique' {h : Heap} {rank : Nat → Nat} {T : Nat → Text} (hinv : Inv h rank T) {r x : Nat} {p q : List Nat}
+theorem IsPath.unique' {h : Heap} {rank : Nat → Nat} {T : Nat → Text} (hinv : Inv0 h rank T) {r x : Nat} {p q : List Nat}
     (hp : IsPath h r p x) (hq : IsPath h r q x) : p = q :=
   IsPath.unique hinv p.length p q x rfl hp hq
 
 /-- the subtrees of two different children of one group are disjoint -/
-theorem sibling_not_reach {h : Heap} {rank : Nat → Nat} {T : Nat → Text} (hinv : Inv h rank T) {r x i j k k' : Nat} {ks p : List Nat}
+theorem sibling_not_reach {h : Heap} {rank : Nat → Nat} {T : Nat → Text} (hinv : Inv0 h rank T) {r x i j k k' : Nat} {ks p : List Nat}
     (hk : (h.obj r).kids = some ks) (hi : ks[i]? = some k) (hp : IsPath h k p x) (hj : ks[j]? = some k') (hne : j ≠ i) :
     ¬ Reach h k' x := by
   rintro ⟨q, hq⟩
@@ -248,22 +252,3 @@ theorem sibling_not_reach {h : Heap} {rank : Nat → Nat} {T : Nat → Text} (hi
 
 end Sql.BK
 
-namespace Sql
-
-/-- apply `f` to the child list of the node at path `p` (child indexes from the root of `t`) -/
-def Node.updAt (f : List Node → Except PyErr (List Node)) : List Nat → Node → Except PyErr Node
-  | [], .grp c ks =>
-    match f ks with
-    | .ok ks' => .ok (.grp c ks')
-    | .error e => .error e
-  | [], .tok .. => .error .attributeError
-  | i :: p, .grp c ks =>
-    match ks[i]? with
-    | none => .error .indexError
-    | some k =>
-      match Node.updAt f p k with
-      | .ok k' => .ok (.grp c (ks.set i k'))
-      | .error e => .error e
-  | _ :: _, .tok .. => .error .attributeError
-
-end Sql
